@@ -7,6 +7,7 @@ package simrt
 import (
 	"fmt"
 	"hash/fnv"
+	"os"
 	"runtime"
 	"runtime/debug"
 	"sort"
@@ -67,6 +68,8 @@ type Task struct {
 	lockOK bool
 	isRoot bool
 	prio   int
+	// Origin is the site of the go statement (or pool submission) that created the task.
+	Origin string
 }
 
 // Violation is a property violation or infrastructure problem found during a run.
@@ -291,7 +294,7 @@ func (s *Sched) InitStrategy() {
 		s.C.SwitchPermille = 60
 	case 3:
 		s.Strategy = 1
-		s.chgPerMil = []int{5, 20, 60}[s.C.Choose(3, "pct-rate")]
+		s.chgPerMil = []int{0, 1, 4}[s.C.Choose(3, "pct-rate")]
 	}
 }
 
@@ -416,8 +419,16 @@ func Go(site string, f func()) {
 		uncontrolled(site)
 	}
 	t := s.newTask(parent, nil)
+	t.Origin = site
+	if dbg := debugLowPrio; dbg != "" && strings.Contains(site, dbg) {
+		t.prio = -1 << 30
+	}
 	s.startTask(t, site, f)
 }
+
+// debugLowPrio (env SIM_DEBUG_LOWPRIO) starves tasks created at a matching site under the
+// priority strategy; used to validate that a suspected race is reachable at all.
+var debugLowPrio = os.Getenv("SIM_DEBUG_LOWPRIO")
 
 func uncontrolled(site string) {
 	panic("SIMRT-INFRA: uncontrolled goroutine reached sim point " + site)
@@ -502,6 +513,9 @@ func (s *Sched) Run(driver func()) {
 			}
 		}
 		if victim != nil {
+			if victim.Proc != nil && (victim.Proc.Cause == "return" || victim.Proc.Cause == "exit") && victim.Origin != "" && !strings.HasPrefix(victim.Origin, "simexec") {
+				s.Probes["killed-at-exit:"+victim.Origin]++
+			}
 			s.mu.Unlock()
 			s.release(victim, true)
 			continue
@@ -575,7 +589,7 @@ func (s *Sched) Run(driver func()) {
 					t = r
 				}
 			}
-			if len(runnable) > 1 && s.C.ChooseBiased(2, s.chgPerMil*2, "pct-change") == 1 {
+			if len(runnable) > 1 && s.chgPerMil > 0 && s.C.ChooseBiased(2, s.chgPerMil*2, "pct-change") == 1 {
 				s.lowPrio--
 				t.prio = s.lowPrio
 				t = runnable[0]
